@@ -1,17 +1,27 @@
 pub mod conn;
 pub mod conn2;
 pub mod pure;
+pub mod server;
 
 use crate::engine::*;
 
+fn srv_job(tier: Tier, quick: u64, thorough: u64) -> Job {
+    Job { sub: "server", kind: JobKind::Pbt { cases: if tier == Tier::Quick { quick } else { thorough }, max_len: 300 }, smallbuf: false }
+}
 fn c04_plan(tier: Tier) -> Vec<Job> {
-    conn::c04_conn_jobs(tier)
+    let mut v = conn::c04_conn_jobs(tier);
+    v.push(srv_job(tier, 1_500, 40_000));
+    v
 }
 fn c11_plan(tier: Tier) -> Vec<Job> {
-    conn2::c11_conn_jobs(tier)
+    let mut v = conn2::c11_conn_jobs(tier);
+    v.push(srv_job(tier, 1_500, 40_000));
+    v
 }
 fn c13_plan(tier: Tier) -> Vec<Job> {
-    conn::c13_conn_jobs(tier)
+    let mut v = conn::c13_conn_jobs(tier);
+    v.push(srv_job(tier, 1_500, 40_000));
+    v
 }
 
 pub fn all() -> Vec<PropDef> {
@@ -23,20 +33,25 @@ pub fn all() -> Vec<PropDef> {
         conn2::c06(),
         PropDef {
             id: "C11",
-            subs: conn2::c11_conn_subs(),
+            subs: { let mut v = conn2::c11_conn_subs(); v.push(server::c11_server_sub()); v },
             plan: c11_plan,
             rule: "connection part: case = stream A.B where A ends in a parse error of any class raised in any parser position (grammar corruptions or an explicit faulty element; cut at the decidable point or with surplus bytes) and B is a continuation of valid requests, blank lines, header-like lines, garbage or a further error, under a random read schedule; oracle = differential: every read after an error-reporting read is replayed, with the same chunk sizes, into a fresh connection with the same limit; results, delivered requests and drained interim output must be identical, recursively at the next error; non-trivial = at least one post-error read was compared",
             assumptions: vec!["bytes that arrive in the same read as the fault, after it, are not part of 'bytes read from then on'"],
             single_threaded_world: false,
         },
         conn2::c12(),
+        server::c07(),
+        server::c08(),
+        server::c09(),
+        server::c10(),
+        server::c18(),
         pure::c14(),
         pure::c15(),
         pure::c16(),
         pure::c17(),
         PropDef {
             id: "C04",
-            subs: conn::c04_conn_subs(),
+            subs: { let mut v = conn::c04_conn_subs(); v.push(server::c04_server_sub()); v },
             plan: c04_plan,
             rule: "connection part: case = (payload limit L from the stated list, declared length n around L, body none/partial/full, read schedule) or (line kind, line length 1000..1100, start offset, read size); oracle = REF prefix form restricted to size-related verdicts + delivered body length <= L and == declared; non-trivial = |n-L|<=1 or |line length - B|<=2",
             assumptions: vec!["limits are configured before the first read of a connection"],
@@ -44,7 +59,7 @@ pub fn all() -> Vec<PropDef> {
         },
         PropDef {
             id: "C13",
-            subs: conn::c13_conn_subs(),
+            subs: { let mut v = conn::c13_conn_subs(); v.push(server::c13_server_sub()); v },
             plan: c13_plan,
             rule: "connection part: case = stream of requests with/without Expect (name case/padding, unsupported values), Content-Length in {absent,0,1..,L,L+1}, optional truncation at the header terminator, read schedule; after every read all pending output is drained and parsed by the independent response reader; oracle = exactly one bodiless 100 with the request's version per REF request with expect && 0<n<=L whose header block is complete, in order, nothing else; non-trivial = the stream has an Expect line",
             assumptions: vec![],
